@@ -17,7 +17,10 @@ struct ArgList {
 }
 
 struct Args {
-    dump: bool,
+    /// `dump` is shared by the list it is written in: the forms requested by that list are dumped.
+    dump_binary: bool,
+    dump_assign: bool,
+    dump_any: bool,
     make_binary: bool,
     make_assign: bool,
 }
@@ -25,30 +28,38 @@ impl Args {
     fn from_attr_args(attrs: Vec<TokenStream>, op: Op) -> Result<Args> {
         let mut make_binary = false;
         let mut make_assign = false;
-        let mut dump = false;
-        let mut items = Vec::new();
+        let mut dump_binary = false;
+        let mut dump_assign = false;
+        let mut dump_any = false;
         for attr in attrs {
             let args: ArgList = parse2(attr)?;
-            dump |= args.dump;
-            items.extend(args.items);
-        }
-        for item in &items {
-            let target_op = Op::from_ident(item)?;
-            if target_op.op != op.op {
-                bail!(
-                    item.span(),
-                    "expected `{}` or `{}`",
-                    Op::new(op.op, OpForm::Binary),
-                    Op::new(op.op, OpForm::Assign)
-                );
-            }
-            match target_op.form {
-                OpForm::Binary => make_binary = true,
-                OpForm::Assign => make_assign = true,
+            dump_any |= args.dump;
+            for item in &args.items {
+                let target_op = Op::from_ident(item)?;
+                if target_op.op != op.op {
+                    bail!(
+                        item.span(),
+                        "expected `{}` or `{}`",
+                        Op::new(op.op, OpForm::Binary),
+                        Op::new(op.op, OpForm::Assign)
+                    );
+                }
+                match target_op.form {
+                    OpForm::Binary => {
+                        make_binary = true;
+                        dump_binary |= args.dump;
+                    }
+                    OpForm::Assign => {
+                        make_assign = true;
+                        dump_assign |= args.dump;
+                    }
+                }
             }
         }
         Ok(Self {
-            dump,
+            dump_binary,
+            dump_assign,
+            dump_any,
             make_binary,
             make_assign,
         })
@@ -166,7 +177,8 @@ pub fn build_by_item_impl(attr: TokenStream, item_impl: &mut ItemImpl) -> Result
     let assign_func = assign_op.to_func_ident();
     let assign_trait = assign_op.to_trait_path();
 
-    let mut ts = TokenStream::new();
+    let mut ts_binary = TokenStream::new();
+    let mut ts_assign = TokenStream::new();
     match op.form {
         OpForm::Binary => {
             let output = expand_self(find_output_type(item_impl)?, this_orig);
@@ -208,16 +220,16 @@ pub fn build_by_item_impl(attr: TokenStream, item_impl: &mut ItemImpl) -> Result
             if args.make_binary {
                 for this in [false, true] {
                     for rhs in [false, true] {
-                        ts.extend(impl_binary(this, rhs, this_is_ref, rhs_is_ref));
+                        ts_binary.extend(impl_binary(this, rhs, this_is_ref, rhs_is_ref));
                     }
                 }
             }
             if args.make_assign {
                 if args.make_binary {
-                    ts.extend(impl_assign(&rhs, true));
-                    ts.extend(impl_assign(&ref_type(&rhs), true));
+                    ts_assign.extend(impl_assign(&rhs, true));
+                    ts_assign.extend(impl_assign(&ref_type(&rhs), true));
                 } else {
-                    ts.extend(impl_assign(&rhs_orig, this_is_ref));
+                    ts_assign.extend(impl_assign(&rhs_orig, this_is_ref));
                 }
             }
         }
@@ -233,7 +245,7 @@ pub fn build_by_item_impl(attr: TokenStream, item_impl: &mut ItemImpl) -> Result
             if args.make_binary {
                 let this = this_orig;
                 let rhs = &rhs_orig;
-                ts.extend(quote! {
+                ts_binary.extend(quote! {
                     #[automatically_derived]
                     impl #impl_g #binary_trait<#rhs> for #this #where_g {
                         type Output = #this;
@@ -247,8 +259,21 @@ pub fn build_by_item_impl(attr: TokenStream, item_impl: &mut ItemImpl) -> Result
         }
     }
 
-    if args.dump {
-        bail!(_, "{}", format!("dump:\n{ts}"));
+    // `dump` replaces the impls of the traits of its own list; the others are still emitted.
+    let mut ts = TokenStream::new();
+    let mut dumped = TokenStream::new();
+    for (part, dump) in [
+        (ts_binary, args.dump_binary),
+        (ts_assign, args.dump_assign),
+    ] {
+        if dump {
+            dumped.extend(part);
+        } else {
+            ts.extend(part);
+        }
+    }
+    if args.dump_any {
+        ts.extend(Error::new(Span::call_site(), format!("dump:\n{dumped}")).to_compile_error());
     }
     Ok(ts)
 }
